@@ -188,7 +188,7 @@ if __name__ == "__main__":
         only = sys.argv[sys.argv.index("--only") + 1]
         args = [a for a in args if a != only]
     if not args:
-        args = sorted(f[:-5] for f in os.listdir(os.path.join(VERIF, "mutants")) if f.endswith(".json"))
+        args = sorted(f[:-5] for f in os.listdir(os.path.join(VERIF, "mutants")) if f.endswith(".json") and f != "benign.json")
     res = run(args, only)
     missed = [r for r in res if r["status"] == "MISSED"]
     print("mutants: %d caught, %d caught-other, %d missed, %d skipped" % (
